@@ -37,7 +37,26 @@ func isHeapCall(in ssa.Instruction, name string) (*ssa.Call, bool) {
 
 // itemOf: value v is (a load from / the pointer) of item
 func sameItem(v ssa.Value, item ssa.Value) bool {
-	return stripChange(v) == item
+	v = stripChange(v)
+	if v == item {
+		return true
+	}
+	// the item merged with "nothing to pop" results (nil) of a helper that was spliced back: every non-nil way in is the item
+	if _, isPhi := v.(*ssa.Phi); isPhi {
+		some := false
+		for _, lf := range phiLeaves(v, 3) {
+			lf = stripChange(lf)
+			if k, ok := lf.(*ssa.Const); ok && k.IsNil() {
+				continue
+			}
+			if lf != item {
+				return false
+			}
+			some = true
+		}
+		return some
+	}
+	return false
 }
 
 // flowKeyOf: v == *item.flowKey
@@ -47,7 +66,7 @@ func isFlowKeyOfItem(v ssa.Value, item ssa.Value) bool {
 		return false
 	}
 	tn, fn, base, ok := loadedField(u.X)
-	return ok && tn == "pkg/intermediate.ItemToExpire" && fn == "flowKey" && base == item
+	return ok && tn == "pkg/intermediate.ItemToExpire" && fn == "flowKey" && sameItem(base, item)
 }
 
 func runC06(p *Prog, r *Report, tier string) {
@@ -790,7 +809,7 @@ func checkDeadlineTests(p *Prog, r *Report, delFn *ssa.Function) {
 				if ac, ok := gd.If.Cond.(*ssa.Call); ok {
 					n := calleeName(&ac.Call)
 					tn, fn, base, ok := loadedField(ac.Call.Args[0])
-					if ok && tn == "pkg/intermediate.ItemToExpire" && fn == "inactiveExpireTime" && base == item {
+					if ok && tn == "pkg/intermediate.ItemToExpire" && fn == "inactiveExpireTime" && sameItem(base, item) {
 						if (n == "(time.Time).After" && gd.Succ == 1) || (n == "(time.Time).Before" && gd.Succ == 0) {
 							how = "inactive deadline of the popped item has passed"
 						}
@@ -844,7 +863,7 @@ func checkDeadlineTests(p *Prog, r *Report, delFn *ssa.Function) {
 				return
 			}
 			tn, fn, base, ok := fieldOf(s.Addr)
-			if !ok || tn != "pkg/intermediate.ItemToExpire" || fn != "activeExpireTime" || base != item {
+			if !ok || tn != "pkg/intermediate.ItemToExpire" || fn != "activeExpireTime" || !sameItem(base, item) {
 				return
 			}
 			if c, ok := s.Val.(*ssa.Call); ok && calleeName(&c.Call) == "(time.Time).Add" {
@@ -868,7 +887,7 @@ func checkDeadlineTests(p *Prog, r *Report, delFn *ssa.Function) {
 					return
 				}
 				tn, fn, base, ok := fieldOf(s.Addr)
-				if !ok || tn != "pkg/intermediate.ItemToExpire" || base != item || (fn != "activeExpireTime" && fn != "inactiveExpireTime") {
+				if !ok || tn != "pkg/intermediate.ItemToExpire" || !sameItem(base, item) || (fn != "activeExpireTime" && fn != "inactiveExpireTime") {
 					return
 				}
 				// ready path?
@@ -955,7 +974,7 @@ func checkRepushFuture(p *Prog, r *Report) {
 						return
 					}
 					tn, fn, base, isF := fieldOf(st.Addr)
-					if isF && tn == "pkg/intermediate.ItemToExpire" && fn == fld && base == item && dominates(pop, x) && dominates(x, in) {
+					if isF && tn == "pkg/intermediate.ItemToExpire" && fn == fld && sameItem(base, item) && dominates(pop, x) && dominates(x, in) {
 						ok = true
 					}
 				})
@@ -967,7 +986,7 @@ func checkRepushFuture(p *Prog, r *Report) {
 					}
 					name := calleeName(&c.Call)
 					tn, fn, base, isF := loadedField(c.Call.Args[0])
-					if name == "(time.Time).After" && gd.Succ == 0 && isF && tn == "pkg/intermediate.ItemToExpire" && fn == fld && base == item {
+					if name == "(time.Time).After" && gd.Succ == 0 && isF && tn == "pkg/intermediate.ItemToExpire" && fn == fld && sameItem(base, item) {
 						ok = true
 					}
 				}
